@@ -80,8 +80,21 @@ func genFragment(n int) *rapid.Generator[[]Op] {
 		bit := func(label string) uint { return 1 << uint(rapid.IntRange(0, n-1).Draw(t, label)) }
 		first := ND + 1 // first proposed header of the view
 		switch k := rapid.IntRange(0, 99).Draw(t, "fragKind"); {
-		case k < 55:
+		case k < 50:
 			return []Op{genOp(n).Draw(t, "op")}
+		case k < 55: // the same validators vote for the same target again in the next round
+			// (offline proposer: the same nil / unproposed-hash prevotes round after round)
+			tg := Tgt{B: rapid.SampledFrom([]int{0, 0, 1, 2}).Draw(t, "echoTarget"), M: genMask(n).Draw(t, "echoMask")}
+			ops := []Op{{K: "vote", V: SlotVoting, T: []Tgt{tg}}, {K: "read"}}
+			if rapid.Bool().Draw(t, "echoPrecommits") {
+				ops = append(ops, Op{K: "vote", V: SlotVoting, PC: true, T: []Tgt{{B: 0, M: all}}})
+			} else {
+				// leave the round through votes for the next one
+				ops = append(ops, Op{K: "vote", V: SlotNextRound, T: []Tgt{{B: tg.B, M: all}}})
+			}
+			ops = maybeRead(ops, "echoRead")
+			ops = append(ops, Op{K: "vote", V: SlotVoting, T: []Tgt{tg}})
+			return append(ops, Op{K: "read"})
 		case k < 70: // a round that commits the first proposal of the voting view
 			ops := []Op{{K: "ph", V: SlotVoting, P: rapid.IntRange(0, n-1).Draw(t, "p"), D: rapid.IntRange(0, ND-1).Draw(t, "d")}}
 			if rapid.IntRange(0, 2).Draw(t, "hasExtra") == 0 {
